@@ -201,6 +201,30 @@ func bodyCarries(ct string, body []byte, id string, n int) bool {
 	return got.ID == id && got.N == n
 }
 
+// errWant is everything an error response shows.
+type errWant struct {
+	Status                    int
+	Name, Message             string
+	Temporary, Timeout, Fault bool
+}
+
+func decodeErrBody(ct string, body []byte) (errWant, string) {
+	var r struct {
+		Name      string `json:"name" xml:"name"`
+		ID        string `json:"id" xml:"id"`
+		Message   string `json:"message" xml:"message"`
+		Temporary bool   `json:"temporary" xml:"temporary"`
+		Timeout   bool   `json:"timeout" xml:"timeout"`
+		Fault     bool   `json:"fault" xml:"fault"`
+	}
+	if ct == "application/xml" {
+		_ = xml.Unmarshal(body, &r)
+	} else {
+		_ = json.Unmarshal(body, &r)
+	}
+	return errWant{0, r.Name, r.Message, r.Temporary, r.Timeout, r.Fault}, r.ID
+}
+
 // goahttp.ErrorEncoder: one closure shared by all requests, nil formatter (the default
 // path the fixed defect d17a564 was on), fresh closure every round so that the first
 // calls of every round are concurrent. Accept values, error kinds and formatters vary.
@@ -219,38 +243,41 @@ func stressErrorEncoder(c *collector, n, rounds int, seed uint64) {
 				acc := vh.Pick(rg[g], []string{"application/json", "application/xml", "", "application/json; charset=utf-8", "application/xml;q=0.5"})
 				w := httptest.NewRecorder()
 				ctx := context.WithValue(context.Background(), goahttp.AcceptTypeKey, acc)
+				// the whole response is a function of this error: status, name, message, id and
+				// the three flags — every field is compared, not a projection
 				var in error
-				wantStatus := 0
-				switch rg[g].Intn(5) {
+				var want errWant
+				switch rg[g].Intn(7) {
 				case 0:
-					in, wantStatus = goa.PermanentError("custom_"+id, "msg "+id), http.StatusBadRequest
+					in, want = goa.PermanentError("custom_"+id, "msg "+id), errWant{400, "custom_" + id, "msg " + id, false, false, false}
 				case 1:
-					in, wantStatus = errors.New("plain "+id), http.StatusInternalServerError
+					in, want = errors.New("plain "+id), errWant{500, "fault", "plain " + id, false, false, true}
 				case 2:
-					in, wantStatus = goa.TemporaryError("tmp_"+id, "msg "+id), http.StatusServiceUnavailable
+					in, want = goa.TemporaryError("tmp_"+id, "msg "+id), errWant{503, "tmp_" + id, "msg " + id, true, false, false}
 				case 3:
-					in, wantStatus = fmt.Errorf("wrapped: %w", goa.PermanentTimeoutError("to_"+id, "msg "+id)), http.StatusRequestTimeout
+					in, want = fmt.Errorf("wrapped: %w", goa.PermanentTimeoutError("to_"+id, "msg "+id)), errWant{408, "to_" + id, "msg " + id, false, true, false}
 				case 4:
-					in, wantStatus = goa.Fault("msg "+id), http.StatusInternalServerError
+					in, want = goa.Fault("msg "+id), errWant{500, "fault", "msg " + id, false, false, true}
+				case 5:
+					in, want = goa.TemporaryTimeoutError("late_"+id, "msg "+id), errWant{504, "late_" + id, "msg " + id, true, true, false}
+				case 6:
+					in, want = fmt.Errorf("undeclared %s: %w", id, io.ErrUnexpectedEOF), errWant{500, "fault", "undeclared " + id + ": unexpected EOF", false, false, true}
+				}
+				var wantID string
+				var se *goa.ServiceError
+				if errors.As(in, &se) {
+					wantID = se.ID
 				}
 				if err := enc(ctx, w, in); err != nil {
 					c.fail("error-encoder-failed", err.Error(), id)
 					continue
 				}
 				check := func(when string) {
-					var got goahttp.ErrorResponse
 					ct := w.Header().Get("Content-Type")
-					if ct == "application/xml" {
-						var x struct {
-							Message string `xml:"message"`
-						}
-						_ = xml.Unmarshal(w.Body.Bytes(), &x)
-						got.Message = x.Message
-					} else {
-						_ = json.Unmarshal(w.Body.Bytes(), &got)
-					}
-					if w.Code != wantStatus || !strings.Contains(got.Message, id) || ct != wantCT(acc) {
-						c.fail("error-encoder-foreign-response", fmt.Sprintf("%s: status %d Content-Type %q body %s for error %q with Accept %q (expected status %d, %q)", when, w.Code, ct, w.Body.String(), in, acc, wantStatus, wantCT(acc)), id)
+					got, gotID := decodeErrBody(ct, w.Body.Bytes())
+					got.Status = w.Code
+					if got != want || (wantID != "" && gotID != wantID) || ct != wantCT(acc) {
+						c.fail("error-encoder-foreign-response", fmt.Sprintf("%s: error %q with Accept %q was answered status/name/message/temporary/timeout/fault %+v id %q Content-Type %q; the function of this error is %+v id %q Content-Type %q", when, in, acc, got, gotID, ct, want, wantID, wantCT(acc)), id)
 					}
 				}
 				check("on return")
@@ -569,13 +596,20 @@ func stressTextCodec(c *collector, n, rounds int, seed uint64) {
 // Muxer.Vars while serving: handlers mounted first (setup), then concurrent requests.
 func stressMuxVars(c *collector, n, rounds int, seed uint64) {
 	mux := goahttp.NewMuxer()
-	mux.Use(func(h http.Handler) http.Handler { return h })
 	type seen struct {
 		vars    map[string]string
 		pattern string
 	}
 	// handlers publish the map Vars returned (not a copy): the caller re-reads it later
 	var results sync.Map
+	// a middleware mounted with Use asks the muxer BEFORE the request is routed (what a
+	// logging / tracing / auth middleware does): the scratch-matching path of the muxer
+	mux.Use(func(next http.Handler) http.Handler {
+		return http.HandlerFunc(func(w http.ResponseWriter, r *http.Request) {
+			results.Store(r.Header.Get("X-Req")+"/pre", seen{mux.Vars(r), mux.ResolvePattern(r)})
+			next.ServeHTTP(w, r)
+		})
+	})
 	h := func(w http.ResponseWriter, r *http.Request) {
 		results.Store(r.Header.Get("X-Req"), seen{mux.Vars(r), mux.ResolvePattern(r)})
 	}
@@ -589,7 +623,7 @@ func stressMuxVars(c *collector, n, rounds int, seed uint64) {
 	for r := 0; r < rounds; r++ {
 		hd := newHolds(n)
 		barrier(n, func(g int) {
-			for k := 0; k < 30; k++ {
+			for k := 0; k < 80; k++ {
 				id := fmt.Sprintf("v%d-%d-%d-%d", seed, r, g, k)
 				var method, path, pattern string
 				want := map[string]string{}
@@ -621,9 +655,14 @@ func stressMuxVars(c *collector, n, rounds int, seed uint64) {
 				mux.ServeHTTP(httptest.NewRecorder(), req)
 				v, _ := results.Load(id)
 				got, _ := v.(seen)
+				pv, _ := results.Load(id + "/pre")
+				pre, _ := pv.(seen)
 				check := func(when string) {
 					if fmt.Sprint(got.vars) != fmt.Sprint(want) || got.pattern != pattern {
 						c.fail("mux-vars-foreign", fmt.Sprintf("%s: %s %s: vars %v pattern %q, expected %v %q", when, method, path, got.vars, got.pattern, want, pattern), path)
+					}
+					if fmt.Sprint(pre.vars) != fmt.Sprint(want) || pre.pattern != pattern {
+						c.fail("mux-vars-foreign/pre-routing", fmt.Sprintf("%s: %s %s: a middleware asking before routing got vars %v pattern %q, expected %v %q", when, method, path, pre.vars, pre.pattern, want, pattern), path)
 					}
 				}
 				check("on return")
